@@ -602,12 +602,23 @@ fn build_for<GG: GraphLike + Clone>(d: &DDesc, scr: Option<u64>, mode: ScalarMod
 }
 
 fn check_diagram(family: &'static str, index: u64, r: &mut Rng, d: &DDesc, mode: ScalarMode) {
+    check_diagram_opts(family, index, r, d, mode, false)
+}
+
+/// `vec_plain_only`: vector backend, ids in creation order. quizx contracts the spiders in
+/// `vertices()` order; for a chain of thousands of spiders any other order (recycled ids, hash
+/// iteration order) leaves hundreds of indices open at once - a cost of the evaluator, not a
+/// defect, and nothing this monitor can afford to run.
+fn check_diagram_opts(family: &'static str, index: u64, r: &mut Rng, d: &DDesc, mode: ScalarMode, vec_plain_only: bool) {
     let c = ctx();
-    let scr = if r.chance(0.5) { Some(r.next_u64()) } else { None };
+    let scr = if !vec_plain_only && r.chance(0.5) { Some(r.next_u64()) } else { None };
     let extra = (r.f64() * 2.0 - 1.0, r.f64() * 2.0 - 1.0, r.f64() * 2.0 - 1.0, r.f64() * 2.0 - 1.0);
     let flags = flags_of(d);
     let mut any_stats = None;
     for backend in ["vec", "hash"] {
+        if vec_plain_only && backend == "hash" {
+            continue;
+        }
         let res = if backend == "vec" {
             let g: quizx::vec_graph::Graph = build_for(d, scr, mode, extra);
             judge_graph(&g).map(|x| (x, graph_json(&g)))
@@ -1739,6 +1750,29 @@ pub fn run() {
         r.shuffle(&mut inputs);
         let d = DDesc { verts, edges, inputs, outputs, scalar: gen_scalar(r) };
         check_diagram("diag-wide", i, r, &d, ScalarMode::AsDescribed);
+    });
+
+    // one wire through 200-3500 spiders: thousands of Hadamard-edge factors 1/sqrt2 (and of
+    // phase factors) on a tensor that stays tiny - what is accumulated must stay in range in
+    // both number types
+    par_cases("diag-long-chain", t.pick(48usize, 1_500usize), move |r, i| {
+        // a third of the cases: Hadamard edges only, 2050-3600 of them (sqrt2^n leaves the f64 range at n = 2048)
+        let (n, h_p) = if i % 3 == 0 { (2050 + r.below(1550), 1.0) } else { (r.log_uniform(200, 3500), *r.pick(&[0.3, 0.7, 1.0])) };
+        let mut verts: Vec<DV> = vec![DV { kind: VK::B, ph: (0, 1), vars: vec![] }];
+        let mut edges: Vec<(usize, usize, EK)> = vec![];
+        for k in 0..n {
+            // (the all-Hadamard third in one colour: a colour change would turn Z-H-X into Z-N-Z)
+            let kind = if i % 3 == 0 || r.chance(0.7) { VK::Z } else { VK::X };
+            // mostly phase-free: the map stays far from zero
+            let ph = if r.chance(0.85) { (0, 1) } else { gen_phase(r, PhasePool::Exact) };
+            verts.push(DV { kind, ph, vars: vec![] });
+            edges.push((k, k + 1, if r.chance(h_p) { EK::H } else { EK::N }));
+        }
+        verts.push(DV { kind: VK::B, ph: (0, 1), vars: vec![] });
+        edges.push((n, n + 1, EK::N));
+        let d = DDesc { verts, edges, inputs: vec![0], outputs: vec![n + 1], scalar: gen_scalar(r) };
+        mx("max-chain-length", n as u64);
+        check_diagram_opts("diag-long-chain", i, r, &d, ScalarMode::AsDescribed, true);
     });
 
     // ---- helpers ------------------------------------------------------------------------
